@@ -642,8 +642,10 @@ def run_api_case(case, drv):
                 o, nw = s0["thetas"][pos:pos + n], s1["thetas"][pos:pos + n]
                 pos += n
                 never_changed = all([t[1:] for t in h[pos - n:pos]] == [t[1:] for t in o] for h in history)
+                l1 = f0["low"] if (f1["low"] is None and o[0][2] == -INF) else f1["low"]
+                u1 = f0["up"] if (f1["up"] is None and o[0][3] == INF) else f1["up"]
                 if never_changed and [t[1:] for t in o] == [t[1:] for t in nw] and \
-                        (f0["init"], f0["low"], f0["up"]) != (f1["init"], f1["low"], f1["up"]):
+                        (f0["init"], f0["low"], f0["up"]) != (f1["init"], l1, u1):
                     only_bounds = f0["init"] == f1["init"]
                     mon.append({"cls": "theta-unchanged-bound-respelled" if only_bounds else "theta-frame",
                                 "what": f"after {applied}: theta item {f0['text']!r} became {f1['text']!r} although its parameter did not change"})
